@@ -1,4 +1,5 @@
 import BtcwVerif.Lemmas.AddrRows
+import BtcwVerif.Model.AddrTx
 /-!
 # C04 — no secret reaches the database file unencrypted
 
@@ -35,6 +36,139 @@ theorem C04_right_key_class (hd : HD K P) (ops : List (Op K P)) :
 theorem no_plain_public_any_cfg (cfg : Cfg) (hd : HD K P) (ops : List (Op K P)) :
     ∀ w ∈ (run cfg hd ops).2, w.exposesPublic = false :=
   fun w hw => (run_good cfg hd ops w hw).1
+
+-- ---------------------------------------------------------------------------------------------------------
+-- the boundary of the public clause: the whole database file, `waddrmgr` next to `wtxmgr`
+
+theorem wstep_mgr_good (cfg : Cfg) (hd : HD K P) (s : State K P) (op : WOp K P) :
+    ∀ w ∈ (wstep cfg hd s op).2.2, (w.1 = Ns.waddrmgr → Good cfg.o1 w.2) ∧
+      (w.1 = Ns.wtxmgr → op.isTx = true ∧ w.2.exposesSecret = false) := by
+  intro w hw
+  cases op with
+  | mgr op =>
+    simp only [wstep, List.mem_map] at hw
+    obtain ⟨r, hr, rfl⟩ := hw
+    exact ⟨fun _ => step_good cfg hd s op r hr, fun h => (by cases h)⟩
+  | recordTx desc =>
+    simp only [wstep] at hw
+    split at hw
+    · cases hw
+    · simp only [List.mem_map] at hw
+      obtain ⟨r, hr, rfl⟩ := hw
+      refine ⟨fun h => (by cases h), fun _ => ⟨rfl, ?_⟩⟩
+      simp only [txRows, List.mem_cons, List.mem_nil_iff, or_false] at hr
+      rcases hr with rfl | rfl <;> simp [Row.exposesSecret, exposesSecret]
+
+theorem wfoldl_good (cfg : Cfg) (hd : HD K P) (ops : List (WOp K P)) :
+    ∀ (acc : State K P × List NsRow),
+      (∀ w ∈ acc.2, (w.1 = Ns.waddrmgr → Good cfg.o1 w.2) ∧ (w.1 = Ns.wtxmgr → w.2.exposesSecret = false)) →
+      ∀ w ∈ (ops.foldl (fun acc op => let r := wstep cfg hd acc.1 op; (r.1, acc.2 ++ r.2.2)) acc).2,
+        (w.1 = Ns.waddrmgr → Good cfg.o1 w.2) ∧ (w.1 = Ns.wtxmgr → w.2.exposesSecret = false) := by
+  induction ops with
+  | nil => intro acc h w hw; exact h w hw
+  | cons op rest ih =>
+    intro acc h
+    simp only [List.foldl_cons]
+    apply ih
+    intro w hw
+    rcases List.mem_append.mp hw with hw | hw
+    · exact h w hw
+    · have := wstep_mgr_good cfg hd acc.1 op w hw
+      exact ⟨this.1, fun e => (this.2 e).2⟩
+
+/-- **The address-manager namespace never shows public key material (nor a secret), transactions or not.**
+    In every history of the whole wallet database — address-manager operations interleaved in any way with
+    recorded transactions — every write below the `waddrmgr` namespace is free of clear-text public key material
+    (xpubs, public keys, address ids / hashes, public scripts), free of exposed secrets, and seals private material
+    under the right key class.  Recording transactions changes nothing for this namespace. -/
+theorem C04_waddrmgr_never_public (hd : HD K P) (ops : List (WOp K P)) :
+    ∀ w ∈ (wrun Cfg.fixed hd ops).2, w.1 = Ns.waddrmgr →
+      w.2.exposesPublic = false ∧ w.2.exposesSecret = false ∧ w.2.rightClass = true := by
+  intro w hw hns
+  have := (wfoldl_good Cfg.fixed hd ops (emptyState, []) (by intro w hw; cases hw) w hw).1 hns
+  exact ⟨this.1, (this.2 rfl).1, (this.2 rfl).2⟩
+
+/-- the transaction store never holds a secret either -/
+theorem C04_wtxmgr_no_secret (hd : HD K P) (ops : List (WOp K P)) :
+    ∀ w ∈ (wrun Cfg.fixed hd ops).2, w.2.exposesSecret = false := by
+  intro w hw
+  have := wfoldl_good Cfg.fixed hd ops (emptyState, []) (by intro w hw; cases hw) w hw
+  cases hns : w.1 with
+  | waddrmgr => exact ((this.1 hns).2 rfl).1
+  | wtxmgr => exact this.2 hns
+
+theorem wfoldl_no_tx (cfg : Cfg) (hd : HD K P) (ops : List (WOp K P)) (hno : ops.all (fun op => !op.isTx) = true) :
+    ∀ (acc : State K P × List NsRow), (∀ w ∈ acc.2, w.1 = Ns.waddrmgr) →
+      ∀ w ∈ (ops.foldl (fun acc op => let r := wstep cfg hd acc.1 op; (r.1, acc.2 ++ r.2.2)) acc).2, w.1 = Ns.waddrmgr := by
+  induction ops with
+  | nil => intro acc h w hw; exact h w hw
+  | cons op rest ih =>
+    intro acc h
+    simp only [List.all_cons, Bool.and_eq_true] at hno
+    simp only [List.foldl_cons]
+    apply ih hno.2
+    intro w hw
+    rcases List.mem_append.mp hw with hw | hw
+    · exact h w hw
+    · cases op with
+      | mgr op =>
+        simp only [wstep, List.mem_map] at hw
+        obtain ⟨r, _, rfl⟩ := hw
+        rfl
+      | recordTx d => simp [WOp.isTx] at hno
+
+/-- **Until a transaction is recorded, nothing public is in the file at all; afterwards only the transaction store
+    holds it.**  (i) While no transaction has been recorded, no write to the database file, in whichever
+    top-level bucket, shows public key material in the clear.  (ii) In any history, a write that shows public key
+    material lies in the `wtxmgr` namespace. -/
+theorem C04_public_boundary (hd : HD K P) (ops : List (WOp K P)) :
+    (ops.all (fun op => !op.isTx) = true → ∀ w ∈ (wrun Cfg.fixed hd ops).2, w.2.exposesPublic = false) ∧
+    (∀ w ∈ (wrun Cfg.fixed hd ops).2, w.2.exposesPublic = true → w.1 = Ns.wtxmgr) := by
+  constructor
+  · intro hno w hw
+    have hns := wfoldl_no_tx Cfg.fixed hd ops hno (emptyState, []) (by intro w hw; cases hw) w hw
+    exact (C04_waddrmgr_never_public hd ops w hw hns).1
+  · intro w hw hp
+    cases hns : w.1 with
+    | wtxmgr => rfl
+    | waddrmgr =>
+      have := (C04_waddrmgr_never_public hd ops w hw hns).1
+      rw [this] at hp; cases hp
+
+/-- the address-manager part of a whole-database history is a history of the address manager: projecting away the
+    recorded transactions gives the same manager state and the same `waddrmgr` writes (so every `C03_*` / `C04_*`
+    theorem about `run` applies to the manager inside the full wallet) -/
+def mgrOps : List (WOp K P) → List (Op K P)
+  | [] => []
+  | .mgr op :: t => op :: mgrOps t
+  | .recordTx _ :: t => mgrOps t
+
+theorem wfoldl_state (cfg : Cfg) (hd : HD K P) : ∀ (ops : List (WOp K P)) (s : State K P) (r : List NsRow) (r' : List Row),
+    (ops.foldl (fun acc op => let x := wstep cfg hd acc.1 op; (x.1, acc.2 ++ x.2.2)) (s, r)).1 =
+    ((mgrOps ops).foldl (fun acc op => let x := step cfg hd acc.1 op; (x.1, acc.2 ++ x.2.2)) (s, r')).1 := by
+  intro ops
+  induction ops with
+  | nil => intro s r r'; rfl
+  | cons op t ih =>
+    intro s r r'
+    cases op with
+    | mgr op => simp only [List.foldl_cons, mgrOps, wstep]; exact ih _ _ _
+    | recordTx d =>
+      simp only [List.foldl_cons, mgrOps]
+      have : (wstep cfg hd s (WOp.recordTx d)).1 = s := by simp only [wstep]; split <;> rfl
+      rw [this]; exact ih _ _ _
+
+/-- the manager state inside the whole-database history is the state of the projected manager history -/
+theorem C04_wrun_mgr_state (hd : HD K P) (ops : List (WOp K P)) :
+    (wrun Cfg.fixed hd ops).1 = (run Cfg.fixed hd (mgrOps ops)).1 := by
+  unfold wrun run
+  cases hm : mgrOps ops with
+  | nil =>
+    have := wfoldl_state Cfg.fixed hd ops emptyState [] []
+    rw [hm] at this; exact this
+  | cons op t =>
+    have := wfoldl_state Cfg.fixed hd ops emptyState [] []
+    rw [hm] at this; exact this
 
 -- ---------------------------------------------------------------------------------------------------------
 -- watching-only conversion
@@ -152,6 +286,12 @@ example : ((run {} demoHD04 demo04Taproot).1.disk.scopes.any fun e =>
 /-- non-vacuity of `C04_watch_only`: a reachable unlocked state with imported key, script and issued addresses -/
 example : (run Cfg.fixed demoHD04 [.create [0], .unlock 0, .next (84, 0) 0 2 false 1, .importPriv (84, 0) 7 true 5,
     .importScript (84, 0) 1 1 true 6]).1.mem.watchOnly = false := by decide
+
+/-- non-vacuity of the boundary: after a recorded transaction the file does hold an address hash in the clear — in
+    the `wtxmgr` namespace — and the address manager's own rows (issue, mark used) still show none -/
+example : ((wrun Cfg.fixed demoHD04 [.mgr (.create [0]), .mgr (.next (84, 0) 0 1 false 1), .recordTx "84:0:0:0:0",
+      .mgr (.markUsed (84, 0) (.key (.hd [0, 84 + H, 0 + H, 0 + H, 0, 0]) 0 true) "84:0:0:0:0")]).2.any
+      fun w => w.1 == Ns.wtxmgr && w.2.exposesPublic) = true := by decide
 
 /-- the write stream of a history is not empty (the theorems above are not about an empty list) -/
 example : 20 < (run {} demoHD04 demo04ImportScript).2.length := by decide
